@@ -5,8 +5,10 @@ import (
 	"errors"
 	"fmt"
 	"io"
+	"runtime"
 	"strings"
 	"testing"
+	"time"
 
 	"github.com/parquet-go/parquet-go"
 	"pgregory.net/rapid"
@@ -74,7 +76,7 @@ func genCase(t *rapid.T) Case {
 		case k <= 8:
 			c.Ops = append(c.Ops, Op{K: "seek", N: rapid.IntRange(0, 1000).Draw(t, "sk")})
 		default:
-			c.Ops = append(c.Ops, Op{K: "close"})
+			c.Ops = append(c.Ops, Op{K: []string{"close", "close", "drop"}[rapid.IntRange(0, 2).Draw(t, "end")]})
 		}
 	}
 	c.Ops = append(c.Ops, Op{K: "churn", N: 2}, Op{K: "close"}, Op{K: "churn", N: 2})
@@ -112,6 +114,25 @@ func churn(n int) {
 		w.Close()
 		got, _ := parquet.Read[Rec](bytes.NewReader(buf.Bytes()), int64(buf.Len()))
 		_ = got
+	}
+}
+
+// collect runs the garbage collector until the finalizers queued by it have
+// run (a sentinel finalizer queued in the same cycle signals it; the wait is bounded).
+func collect() {
+	done := make(chan struct{})
+	s := new([16]byte)
+	runtime.SetFinalizer(s, func(*[16]byte) { close(done) })
+	s = nil
+	for i := 0; i < 10; i++ {
+		runtime.GC()
+		select {
+		case <-done:
+			runtime.GC()
+			runtime.Gosched()
+			return
+		case <-time.After(20 * time.Millisecond):
+		}
 	}
 }
 
@@ -299,6 +320,16 @@ func runCase(c Case, o *kit.Obs) *kit.Failure {
 		case "churn":
 			churn(op.N)
 			churned = true
+		case "drop":
+			// the reader becomes unreachable without Close and is collected (its finalizer runs);
+			// what it handed out stays valid: there is no further call on it
+			if !closed {
+				tr, rr = nil, nil
+				closed = true
+				collect()
+				churn(1)
+				o.Class("reader-dropped-and-collected")
+			}
 		case "close":
 			if !closed {
 				if e != nil {
@@ -324,6 +355,9 @@ func runCase(c Case, o *kit.Obs) *kit.Failure {
 // nextReaderOp returns the index of the next operation on the same reader after i.
 func nextReaderOp(ops []Op, i int) int {
 	for j := i + 1; j < len(ops); j++ {
+		if ops[j].K == "drop" {
+			return len(ops) // later operations on the reader are skipped
+		}
 		if ops[j].K == "read" || ops[j].K == "seek" || ops[j].K == "close" {
 			return j
 		}
